@@ -197,10 +197,18 @@ class _World:
         self.loop = loop
         self.trace = []
         self.call = None          # writes/exceptions of the harness call in progress
-        self.key = None           # session key (server side)
+        self.key = None           # session key of the running session as the server knows it
+        self.key_ep = (999997, 0)  # its epoch: (client key-pair id, server key id)
+        self.adopted = None       # (key, epoch) the client adopted at its last handshake (seen on its SessionAuthenticate)
         self.client_pub = None
-        self.server_priv = X25519PrivateKey.from_private_bytes(bytes((seed * 7 + i * 13 + 1) % 256 for i in range(32)))
-        self.server_pub = self.server_priv.public_key().public_bytes(serialization.Encoding.Raw, serialization.PublicFormat.Raw)
+        self.client_pubs = []     # distinct public keys seen in SessionRequests written by connect(): index = key-pair id
+        self.cur_kp = 0
+        self.keys = {}            # session key octets -> epoch, for every (client key, server key) pair so far
+        self.server_privs = [X25519PrivateKey.from_private_bytes(bytes((seed * 7 + i * 13 + 1 + 29 * j) % 256 for i in range(32)))
+                             for j in range(3)]
+        self.server_pubs = [k.public_key().public_bytes(serialization.Encoding.Raw, serialization.PublicFormat.Raw)
+                            for k in self.server_privs]
+        self.sessions = []        # per connect(): what the server sent: {"resp": [raw...], "wrap": [(raw, epoch, token)...]}
         self.dap = dap
         self.connect_task = None
         self.lost_pending = False
@@ -225,6 +233,11 @@ class _World:
     def now(self):
         return int(round((self.loop.time() - 1000.0) * 1000))
 
+    def derive(self, kp, srv):
+        key = R.session_key(self.server_privs[srv].exchange(X25519PublicKey.from_public_bytes(self.client_pubs[kp])))
+        self.keys.setdefault(key, (kp, srv))
+        return key
+
     # ---- outputs of the implementation -------------------------------------------------------
     def on_forward(self, frame, _src, _tr):
         raw = frame.to_knx()
@@ -232,22 +245,35 @@ class _World:
 
     def decode_write(self, data):
         svc = _svc_of(data)
-        if svc == R.WRAPPER_SVC and self.key is not None:
-            u = R.unwrap(self.key, data)
+        if svc == R.WRAPPER_SVC:
+            # which session key was this wrapper made under?  (the adopted one first, then every key known to the server)
+            cands = ([self.adopted[0]] if self.adopted else []) + [k for k in self.keys]
+            u, ep = None, (999999, 0)
+            for k in cands:
+                uu = R.unwrap(k, data)
+                if uu is not None and uu["mac_ok"]:
+                    u, ep = uu, self.keys[k]
+                    break
             if u is None:
-                return ("ww", 0, 0, 0, 0, 0)
-            ok = int(u["mac_ok"] and u["serial"] == ip_secure.XKNX_SERIAL_NUMBER
+                return ("ww", 0, 0, 0, 0, 0, ep[0], ep[1])
+            ok = int(u["serial"] == ip_secure.XKNX_SERIAL_NUMBER
                      and u["tag"] == ip_secure.MESSAGE_TAG_TUNNELLING and len(u["payload"]) >= 6
                      and int.from_bytes(u["payload"][4:6], "big") == len(u["payload"]))
             svc_in = _svc_of(u["payload"]) if len(u["payload"]) >= 4 else 0
-            if svc_in == SVC.SESSION_AUTHENTICATE.value:
+            if svc_in == SVC.SESSION_AUTHENTICATE.value and self.call is None:
                 self.sid_active = u["session_id"]
-            return ("ww", u["seq"], svc_in, _aux_of(u["payload"]), ok, u["session_id"])
+                self.adopted = (k, ep)
+            return ("ww", u["seq"], svc_in, _aux_of(u["payload"]), ok, u["session_id"], ep[0], ep[1])
         if svc == SVC.SESSION_REQUEST.value and len(data) == 46 and self.call is None:
             # the SessionRequest written by connect() itself carries the client's ephemeral public key
             self.client_pub = data[14:46]
-            self.key = R.session_key(self.server_priv.exchange(X25519PublicKey.from_public_bytes(self.client_pub)))
-        return ("wp", svc)
+            if self.client_pub not in self.client_pubs:
+                self.client_pubs.append(self.client_pub)
+            self.cur_kp = self.client_pubs.index(self.client_pub)
+            for j in range(len(self.server_privs)):
+                self.derive(self.cur_kp, j)
+            return ("wp", svc, self.cur_kp)
+        return ("wp", svc, -1)
 
     sid_sent = 0
     sid_active = None
@@ -257,9 +283,9 @@ class _World:
         if self.call is not None:
             self.call.append(w)
         elif w[0] == "ww":
-            self.trace.append(("aw", self.now(), w[1], w[2], w[3], w[4], w[5]))
+            self.trace.append(("aw", self.now()) + tuple(w[1:]))
         else:
-            self.trace.append(("ap", self.now(), w[1]))
+            self.trace.append(("ap", self.now(), w[1], w[2]))
 
     def on_closed(self):
         # the peer side of transport.close(): asyncio calls protocol.connection_lost -> TCPTransport._connection_lost
@@ -273,6 +299,7 @@ class _World:
 
     def do_conn(self):
         self.trace.append(("conn", self.now(), int(self.dap)))
+        self.sessions.append({"resp": [], "wrap": []})
 
         async def run():
             try:
@@ -285,18 +312,45 @@ class _World:
     def build(self, spec):
         """Frame spec -> (bytes, observation prefix)."""
         kind = spec["f"]
+        nsess = len(self.sessions)
+        rec = self.sessions[-1] if self.sessions else {"resp": [], "wrap": []}
+        cur_key = self.adopted[0] if self.adopted else None
+        if kind == "replay":
+            # something the server sent in an EARLIER session of this object, octet for octet
+            k = spec["sess"]
+            pool = self.sessions[k][spec["kind"]] if 0 <= k < nsess - 1 else []
+            if not pool:
+                return None
+            item = pool[spec["i"] % len(pool)]
+            if spec["kind"] == "resp":
+                raw = item
+                sid, spub, mac = int.from_bytes(raw[6:8], "big"), raw[8:40], raw[40:56]
+                ok = int(mac == R.session_response_mac(R.device_authentication_code(DEV_PW), sid,
+                                                       self.client_pub or bytes(32), spub))
+                srv = self.server_pubs.index(spub)
+                if self.client_pub is not None:
+                    self.key, self.key_ep = self.derive(self.cur_kp, srv), (self.cur_kp, srv)
+                self.sid_sent = sid
+                return raw, ("rxr", sid, ok, srv), k
+            raw, ep, tok = item
+            u = R.unwrap(cur_key or bytes(16), raw)
+            return raw, ("rxw", u["session_id"], u["seq"], int(bool(cur_key) and u["mac_ok"]), tok, ep[0], ep[1]), k
         if kind == "resp":
             sid = spec["sid"]
-            mac = R.session_response_mac(R.device_authentication_code(DEV_PW), sid,
-                                         self.client_pub or bytes(32), self.server_pub)
+            srv = spec.get("srv", 0) % len(self.server_privs)
+            spub = self.server_pubs[srv]
+            mac = R.session_response_mac(R.device_authentication_code(DEV_PW), sid, self.client_pub or bytes(32), spub)
             if not spec["mac"]:
                 mac = bytes((mac[0] ^ 0x40,)) + mac[1:]
             self.sid_sent = sid
-            raw = bytes.fromhex("061009520038") + sid.to_bytes(2, "big") + self.server_pub + mac
-            return raw, ("rxr", sid, int(bool(spec["mac"])))
+            if self.client_pub is not None:
+                self.key, self.key_ep = self.derive(self.cur_kp, srv), (self.cur_kp, srv)
+            raw = bytes.fromhex("061009520038") + sid.to_bytes(2, "big") + spub + mac
+            rec["resp"].append(raw)
+            return raw, ("rxr", sid, int(bool(spec["mac"])), srv), nsess - 1
         if kind == "plain":
             raw = FR[spec["svc"]]
-            return raw, ("rxp", _svc_of(raw))
+            return raw, ("rxp", _svc_of(raw)), nsess - 1
         assert kind == "wrap"
         inner_name = spec["inner"]
         key = self.key or bytes(16)
@@ -314,7 +368,9 @@ class _World:
         else:
             inner = FR[inner_name]
             tok = f"s{_svc_of(inner)}"
-        use_key = key if spec.get("key", "ok") == "ok" else bytes(x ^ 0x5A for x in key)
+        good_key = spec.get("key", "ok") == "ok"
+        use_key = key if good_key else bytes(x ^ 0x5A for x in key)
+        ep = self.key_ep if good_key else (999998, 0)
         own = self.sid_active if self.sid_active is not None else self.sid_sent
         sid = own if spec["sid"] == "ok" else int(spec["sid"])
         seq = int(spec["seq"])
@@ -333,15 +389,19 @@ class _World:
         elif t == "tag":
             raw[21] ^= 0x01
         raw = bytes(raw)
-        u = R.unwrap(key, raw)     # the server's own verdict with the true session key
-        return raw, ("rxw", u["session_id"], u["seq"], int(u["mac_ok"]), tok)
+        if t is None and good_key:
+            rec["wrap"].append((raw, ep, tok))
+        u = R.unwrap(cur_key or bytes(16), raw)     # the verdict under the session key the client currently holds
+        return raw, ("rxw", u["session_id"], u["seq"], int(bool(cur_key) and u["mac_ok"]), tok, ep[0], ep[1]), nsess - 1
 
     def do_chunk(self, specs):
-        built = [self.build(s) for s in specs]
+        built = [b for b in (self.build(s) for s in specs) if b is not None]
+        if not built:
+            return
         results = []
         # deliver one TCP chunk; learn per-frame outcomes through the catch-all callback
         pending = list(built)
-        data = b"".join(b for b, _ in built)
+        data = b"".join(b[0] for b in built)
         orig = SecureSession.handle_knxipframe
         world = self
         idx = [0]
@@ -365,8 +425,9 @@ class _World:
         finally:
             SecureSession.handle_knxipframe = orig
         for i, out in results:
-            pre = built[i][1]
-            self.trace.append((pre[0], self.now()) + tuple(pre[1:]) + (out,))
+            pre, born = built[i][1], built[i][2]
+            # `@n`: the connect() during which the server built the frame (oracle only; stripped from the monitor line)
+            self.trace.append((pre[0], self.now()) + tuple(pre[1:]) + (f"{out}@{born}",))
         del pending
 
     def do_send(self, name):
@@ -391,7 +452,7 @@ class _World:
             return "p" if w[1] == svc else "bad:plain-other"
         if w[2] != svc or w[3] != aux or not w[4] or w[5] != self.sid_active:
             return "bad:wrapper"
-        return f"w{w[1]}"
+        return f"w{w[1]}:{w[6]}:{w[7]}"
 
     def do_stop(self, lost=False):
         self.call = []
@@ -432,6 +493,10 @@ async def _main(loop, case):
                 w.trace.append(("cres", w.now(), "cancelled"))
             w.do_stop()
         elif k == "poke":
+            if not w.session.initialized:
+                # the counter can only get near 2^48 by sending wrappers; poking it before the handshake (connect()
+                # resets it) would make the SessionAuthenticate itself fail - an artefact, not a reachable history
+                continue
             w.session._sequence_number = int(step["v"])
             w.trace.append(("poke", w.now(), int(step["v"])))
         elif k == "sleep":
@@ -456,7 +521,8 @@ def run_impl(case):
         TCPTransport.connect = _real_connect
         ip_secure.generate_ecdh_key_pair = _real_gen
     out = _fmt(trace)
-    return {"out": out, "line": "c29 monitor " + out, "expect": "accept"}
+    import re
+    return {"out": out, "line": "c29 monitor " + re.sub(r"@-?\d+", "", out), "expect": "accept"}
 
 
 # --------------------------------------------------------------------------------------------------
@@ -474,6 +540,12 @@ def _parse(out):
     return tr
 
 
+def _res(tok):
+    """'f@2' -> ('f', 2)"""
+    r, _, born = tok.partition("@")
+    return r, (int(born) if born else None)
+
+
 def oracle(case, out):
     tr = _parse(out)
     init = False            # handshake completed (SessionResponse accepted and SessionAuthenticate sent)
@@ -484,29 +556,38 @@ def oracle(case, out):
     sid = None
     last_fwd = -1
     next_seq = 0
+    nconn = 0               # number of connect() calls so far: frames born in connect n belong to session n
+    seen_kp = set()         # key pairs announced in SessionRequests
+    written = set()         # (key epoch, sequence number) of wrappers written
+    poked = False
     for o in tr:
         k = o[0]
         if k == "conn":
             connecting, responded, last_fwd, next_seq = True, None, -1, 0
+            nconn += 1
         elif k == "rxr":
-            if o[-1] == "f":
+            res, born = _res(o[-1])
+            if res == "f":
                 if init:
                     return "plain SessionResponse accepted after the session was authenticated"
                 if connecting:
                     responded = int(o[2])
                     responded_mac = o[3] == "1"
-            elif o[-1] != "d":
-                return f"plain SessionResponse: outcome {o[-1]}"
+            elif res != "d":
+                return f"plain SessionResponse: outcome {res}"
         elif k == "rxp":
-            if o[-1] == "f":
+            if _res(o[-1])[0] == "f":
                 return f"plain frame of service 0x{int(o[2]):04x} was passed on"
         elif k == "rxw":
-            _, _t, fsid, seq, mac, inner, res = o
+            _, _t, fsid, seq, mac, inner, _ek, _es, res = o
+            res, born = _res(res)
             seq = int(seq)
             if res == "f":
                 why = []
                 if not init:
                     why.append("before the handshake")
+                if born is not None and born != nconn - 1:
+                    why.append(f"it was wrapped for session #{born + 1} of this object and arrived in session #{nconn}")
                 if mac != "1":
                     why.append("MAC does not verify")
                 if sid is None or int(fsid) != sid:
@@ -523,8 +604,12 @@ def oracle(case, out):
         elif k in ("ap",):
             if init or int(o[2]) != SVC.SESSION_REQUEST.value:
                 return f"plain frame of service 0x{int(o[2]):04x} written" + (" after the handshake" if init else "")
+            if o[3] in seen_kp:
+                return ("the SessionRequest of this connect() carries the same public key as an earlier one: no fresh key "
+                        "agreement, the session key of the earlier session is derived again")
+            seen_kp.add(o[3])
         elif k == "aw":
-            _, _t, seq, svc, aux, ok, wsid = o
+            _, _t, seq, svc, aux, ok, wsid, ek, es = o
             if not init:
                 if responded is None or int(svc) != SVC.SESSION_AUTHENTICATE.value:
                     return "wrapped frame written before a SessionResponse was accepted"
@@ -535,6 +620,9 @@ def oracle(case, out):
                 return f"wrapper written for session id {wsid}, the session id is {sid}"
             if ok != "1" or int(seq) != next_seq:
                 return f"wrapper written with sequence number {seq} (valid={ok}), expected {next_seq}"
+            if not poked and (ek, es, seq) in written:
+                return f"outgoing wrapper repeats a (session key, sequence number) pair: key epoch ({ek},{es}), number {seq}"
+            written.add((ek, es, seq))
             next_seq += 1
         elif k in ("snd", "stop"):
             res = o[-1]
@@ -544,10 +632,14 @@ def oracle(case, out):
                 if init or int(o[2]) != SVC.SESSION_REQUEST.value:
                     return f"plain frame of service 0x{int(o[2]):04x} written" + (" after the handshake" if init else "")
             elif res.startswith("w"):
+                wseq, ek, es = res[1:].split(":")
                 if not init:
                     return "wrapped frame written before the handshake"
-                if int(res[1:]) != next_seq or next_seq > MAX48:
-                    return f"wrapper written with sequence number {res[1:]}, expected {next_seq}"
+                if int(wseq) != next_seq or next_seq > MAX48:
+                    return f"wrapper written with sequence number {wseq}, expected {next_seq}"
+                if not poked and (ek, es, wseq) in written:
+                    return f"outgoing wrapper repeats a (session key, sequence number) pair: key epoch ({ek},{es}), number {wseq}"
+                written.add((ek, es, wseq))
                 next_seq += 1
             elif res.startswith("e:") and init and k == "snd" and next_seq <= MAX48 and res != "e:ipsec":
                 return f"send after the handshake failed with {res}"
@@ -557,6 +649,7 @@ def oracle(case, out):
                 init, connecting = False, False
         elif k == "poke":
             next_seq = int(o[2])
+            poked = True
         elif k == "cres":
             if o[2] != "ok" and not init:
                 connecting = False
@@ -568,16 +661,17 @@ def oracle(case, out):
 
 def nontrivial(case, out):
     tr = _parse(out)
-    f = any(o[0] == "rxw" and o[-1] == "f" for o in tr)
-    d = any(o[0] == "rxw" and o[-1] == "d" for o in tr)
+    f = any(o[0] == "rxw" and o[-1].startswith("f") for o in tr)
+    d = any(o[0] == "rxw" and o[-1].startswith("d") for o in tr)
     return f and d
 
 
 def outcome_class(out):
     tr = _parse(out)
-    f = sum(1 for o in tr if o[0] == "rxw" and o[-1] == "f")
-    d = sum(1 for o in tr if o[0] == "rxw" and o[-1] != "f")
-    return f"fwd{min(f, 3)}-drop{min(d, 3)}-{'init' if any(o[0] == 'aw' for o in tr) else 'noinit'}"
+    f = sum(1 for o in tr if o[0] == "rxw" and o[-1].startswith("f"))
+    d = sum(1 for o in tr if o[0] == "rxw" and not o[-1].startswith("f"))
+    n = sum(1 for o in tr if o[0] == "aw" and o[3] == str(SVC.SESSION_AUTHENTICATE.value))
+    return f"fwd{min(f, 3)}-drop{min(d, 3)}-sessions{min(n, 3)}"
 
 
 def finding_key(case, msg):
@@ -683,6 +777,7 @@ def _gen_case(rng, big):
     steps = []
     st = {"seq": -1}
     budget = rng.randrange(5, 41 if big else 25)
+    nsess = [0]
 
     def noise(n):
         fr = []
@@ -746,15 +841,37 @@ def _gen_case(rng, big):
         elif r < 0.96:
             steps.append({"k": "stop"})
             n += 1
-            if rng.random() < 0.6:
-                steps.append({"k": "conn"})
-                st["seq"] = -1
-                steps.append({"k": "chunk", "frames": [{"f": "resp", "sid": sid, "mac": 1}]})
-                steps.append({"k": "chunk", "frames": [_auth_status(st, 0)]})
+            if rng.random() < 0.75:
+                nsess[0] += 1
+                n += _next_session(rng, steps, st, sid, nsess[0])
         else:
             steps.append({"k": "chunk", "frames": [dict(_wrap_spec(rng, st, 1.0), inner=rng.choice(["status_5", "status_3", "status_2"]))]})
             n += 1
     return {"seed": rng.randrange(200), "dap": int(dap), "steps": steps}
+
+
+def _next_session(rng, steps, st, sid, k):
+    """A further session on the same object (auto-reconnect): the peer answers afresh - or plays back what the server
+    sent in an earlier session (SessionResponse and wrapped frames, octet for octet)."""
+    steps.append({"k": "conn"})
+    st["seq"] = -1
+    prev = rng.randrange(k)
+    mode = rng.random()
+    if mode < 0.5:
+        # recorded SessionResponse, then the recorded wrapped traffic in its original order
+        steps.append({"k": "chunk", "frames": [{"f": "replay", "sess": prev, "kind": "resp", "i": 0}]})
+        cnt = rng.randrange(1, 6)
+        i0 = 0 if rng.random() < 0.7 else rng.randrange(4)
+        for j in range(cnt):
+            steps.append({"k": "chunk", "frames": [{"f": "replay", "sess": prev, "kind": "wrap", "i": i0 + j}]})
+        return cnt + 1
+    # genuine new session (same or another server key), recorded frames mixed in
+    steps.append({"k": "chunk", "frames": [{"f": "resp", "sid": sid, "mac": 1, "srv": rng.choice([0, 0, 1, 2])}]})
+    steps.append({"k": "chunk", "frames": [_auth_status(st, 0)]})
+    cnt = rng.randrange(0, 4)
+    for j in range(cnt):
+        steps.append({"k": "chunk", "frames": [{"f": "replay", "sess": prev, "kind": rng.choice(["wrap", "wrap", "resp"]), "i": rng.randrange(6)}]})
+    return cnt + 2
 
 
 def _auth_status(st, code):
@@ -763,6 +880,6 @@ def _auth_status(st, code):
 
 
 def generate(rng, tier):
-    n = 500 if tier == "quick" else 9000
+    n = 400 if tier == "quick" else 8000
     for _ in range(n):
         yield _gen_case(rng, tier != "quick" or rng.random() < 0.3)
